@@ -13,7 +13,9 @@
 (***************************************************************************)
 EXTENDS Naturals, Sequences, FiniteSets, TLC
 
-CONSTANTS MaxVersion, MaxHits, MaxPolls
+CONSTANTS MaxVersion, MaxHits, MaxPolls,
+          SharedConfigStore   \* deviation (pre-fix ConfigService): every agent of the process shares ONE tracepoint
+                              \* configuration store - a second agent starts with the first one's hash
 
 VARIABLES phase,      \* "new" | "running" | "stopping" | "stopped"
           svc,        \* version the service currently offers
@@ -75,7 +77,15 @@ ShutdownEnd == /\ phase = "stopping" /\ received = Len(fired) /\ pollOpen = None
                /\ phase' = "stopped"
                /\ UNCHANGED <<svc, hash, pollOpen, installed, toApply, fired, received, nhits, npolls, late>>
 
-Next == Start \/ SvcChange \/ PollReq \/ PollResp \/ Apply \/ Hit \/ Deliver \/ ShutdownBegin \/ ShutdownEnd
+(* the application starts the agent again in the same process (a NEW agent): it knows no configuration yet, so it *)
+(* reports no hash and the service sends it the current configuration                                             *)
+Restart == /\ phase = "stopped"
+           /\ phase' = "running"
+           /\ hash' = IF SharedConfigStore THEN hash ELSE 0
+           /\ installed' = 0 /\ toApply' = {}
+           /\ UNCHANGED <<svc, pollOpen, fired, received, nhits, npolls, late>>
+
+Next == Start \/ Restart \/ SvcChange \/ PollReq \/ PollResp \/ Apply \/ Hit \/ Deliver \/ ShutdownBegin \/ ShutdownEnd
         \/ (phase = "stopped" /\ UNCHANGED vars)
 
 Spec == Init /\ [][Next]_vars
@@ -85,5 +95,7 @@ NothingAfterShutdown == ~late
 NoSpuriousSnapshots == received <= Len(fired)
 OnlyOfferedVersions == \A i \in 1..Len(fired) : fired[i] \in 1..MaxVersion
 HashIsReceivedConfig == hash <= svc
+(* the hash the agent reports is the hash of a configuration it has, or is about to have, installed (C12) *)
+HashMeansInstalled == (phase = "running" /\ hash # 0) => (installed = hash \/ toApply # {})
 QuietWhenStopped == phase = "stopped" => (received = Len(fired) /\ pollOpen = None)
 =============================================================================
